@@ -69,6 +69,15 @@ CHECKS['C12'] = dict(
     note='trusted: TLC, Stereo.tla / Sym.tla; RDKit only as second reader-writer; the meaning of @/@@ and / \\ against the language definition is C03/C02',
     technique='TLC evaluation of permutation-parity specifications over exhaustive recorded sign tables; toolkit cross-reading',
     design='5/C12')
+CHECKS['C07'] = dict(
+    text='Recorded get_mapping calls (molecule patterns cut from the target itself and from other molecules, two-component cuts, SMARTS queries, '
+         'salts as targets, every combination of automorphism filter and searching scope, the operators) are validated against the declarative '
+         'embedding set of Match.tla, enumerated completely by TLC: every returned map is an embedding, none is missed, none twice, one per '
+         'image set with the filter. lazy_product (multi-component searches) is model checked for all generator lengths and bound to the '
+         'code by recorded calls.',
+    note='trusted: TLC, Match.tla; target attributes (neighbours, heteroatoms, hybridisation, ring sizes) are derived by TLC from recorded bonds and the reported ring basis; completeness bounded to targets <= 60 atoms',
+    technique='TLC enumeration of the declarative embedding set vs recorded searches; TLA+ model of lazy_product model checked',
+    design='5/C07')
 PENDING = {}
 
 
